@@ -4,5 +4,5 @@ CONSTANTS
   NSet <- MCN
   SeedSet <- MCSeeds
   Emit <- MCEmit
-INVARIANTS Algebra SameGrid FlagsAsStated Vector
+INVARIANTS Algebra SameGrid FlagsAsStated Idempotent Vector
 CHECK_DEADLOCK FALSE
